@@ -92,6 +92,27 @@ where
         },
         Some(p) => ev.p(&p),
     }
+    // the calls the Serialize impl makes (struct name, declared field count, fields), for F and Wrapping<F>
+    let mut tr = String::new();
+    match guard(&mut || tr = drv::recser::trace(&x)) {
+        None => ev.t(tr.as_bytes()),
+        Some(p) => ev.p(&p),
+    }
+    let mut wtr = String::new();
+    match guard(&mut || wtr = drv::recser::trace(&Wrapping(x))) {
+        None => ev.t(wtr.as_bytes()),
+        Some(p) => ev.p(&p),
+    }
+    // sequence form (what non-self-describing formats feed to the visitor): [bits]
+    let seq = format!("[{}]", js.trim_start_matches("{\"bits\":").trim_end_matches('}'));
+    let mut sback: Option<Result<u128, ()>> = None;
+    match guard(&mut || sback = Some(serde_json::from_str::<F>(&seq).map(tb).map_err(|_| ()))) {
+        None => match sback.unwrap() {
+            Ok(v) => ev.ok(v),
+            Err(()) => ev.err(""),
+        },
+        Some(p) => ev.p(&p),
+    }
     let mut wjs = String::new();
     match guard(&mut || wjs = serde_json::to_string(&Wrapping(x)).unwrap_or_else(|e| format!("ERR {}", e))) {
         None => ev.t(wjs.as_bytes()),
